@@ -106,6 +106,14 @@ func NewConn(app *fiber.App, remote string) *Conn {
 	return c
 }
 
+// RemoteIP is the peer address the connection was opened with.
+func (c *Conn) RemoteIP() string {
+	if t, ok := c.remote.(*net.TCPAddr); ok {
+		return t.IP.String()
+	}
+	return "0.0.0.0"
+}
+
 // Do serves one request given as raw bytes.
 func (c *Conn) Do(raw []byte) *Resp {
 	if c.net.Enabled {
